@@ -392,8 +392,8 @@ def foreign_variants(json_obj, seed):
                 continue
             if k == "max_layout_filling" and not simple_layout:
                 continue
-            if k == "supports_slm_mask" and j.get("is_virtual") and "dmm_objects" in j and not j["dmm_objects"]:
-                continue
+            if k == "supports_slm_mask" and j.get("is_virtual") and not j.get("dmm_objects"):
+                continue  # the class default True needs a DMM
             del j[k]
     out.append(j)
     # v3: drop one key that has no default anywhere (KeyError / TypeError expected)
@@ -446,9 +446,7 @@ def run_device(case):
     run["dec"] = dinst
     fields = diff_fields(inst, dinst)
     for f in fields:
-        if f == "dmm_objects" and case["spec"]["virtual"] and inst["dmm_objects"] == []:
-            sigs = ["device:field-differs:dmm_objects:virtual-empty-becomes-default"]
-        elif f == "default_noise_model" and isinstance(inst[f], dict) and isinstance(dinst.get(f), dict):
+        if f == "default_noise_model" and isinstance(inst[f], dict) and isinstance(dinst.get(f), dict):
             sigs = [
                 f"device:field-differs:{p}" + noise_path_sig(p, inst[f], dinst[f])
                 for p in diff_paths(inst[f], dinst[f], "default_noise_model.")
